@@ -347,9 +347,13 @@ pub assume_specification [<{q} as PartialEq>::eq] (a: &{q}, b: &{q}) -> (r: bool
             if not ff:
                 raise LostAnchor(f'{path}: struct {name} has no field {fname}')
             t0, t1 = ff[0]['ty']
-            m23 = re.fullmatch(r'(?:std::sync::)?RwLock\s*<(.*)>', src[t0:t1].decode().strip(), re.S)
+            ty23 = ' '.join(src[t0:t1].decode().split())
+            m_arc = re.fullmatch(r'(?:std::sync::)?Arc\s*<\s*(.*)>', ty23, re.S)
+            if m_arc:
+                ty23 = m_arc.group(1).strip()
+            m23 = re.fullmatch(r'(?:std::sync::|tokio::sync::)?RwLock\s*<(.*)>', ty23, re.S)
             if not m23:
-                raise ToolLimit(f'{name}.{fname}: R23 wants an RwLock<T> field')
+                raise ToolLimit(f'{name}.{fname}: R23 wants an RwLock<T> or Arc<RwLock<T>> field')
             edits.append((t0, t1, [Seg(m23.group(1))]))
             self._rw('R23')
         kept = self._strip_attrs(src, e, KEEP_DERIVES, edits)
@@ -632,7 +636,7 @@ pub assume_specification [<{q} as PartialEq>::eq] (a: &{q}, b: &{q}) -> (r: bool
         if unlock and not external_body:
             btxt23 = src[bs:be].decode()
             for fld in unlock:
-                for m23 in re.finditer(r'self\s*\.\s*' + re.escape(fld) + r'\s*\.\s*(write|read)\s*\(\s*\)\s*\.\s*unwrap\s*\(\s*\)', btxt23):
+                for m23 in re.finditer(r'self\s*\.\s*' + re.escape(fld) + r'\s*\.\s*(write|read)\s*\(\s*\)(?:\s*\.\s*unwrap\s*\(\s*\))?', btxt23):
                     s23 = bs + len(btxt23[:m23.start()].encode())
                     t23 = bs + len(btxt23[:m23.end()].encode())
                     edits.append((s23, t23, [Seg(f'(&mut self.{fld})' if m23.group(1) == 'write' else f'(&self.{fld})')]))
